@@ -87,7 +87,7 @@ def handle (case obs : List String) : String × String :=
     | some (st, r) =>
       match HMap.parse r with
       | some (h0, []) =>
-        let model := match addHeader st h0 with
+        let model := match addHeader .fixed st h0 with
           | .ok h => "ok" :: HMap.render h
           | .error e => "err" :: renderSt e
         let v := match obs with
@@ -105,32 +105,6 @@ def handle (case obs : List String) : String × String :=
   | "dec" :: rest =>
     match HMap.parse rest with
     | some (h, []) => (join (renderOutcome (fromHeaderMap .fixed h)), verdict (readVerdict h obs))
-    | _ => bad
-  | "rt" :: rest =>
-    match parseSt rest with
-    | some (st, []) =>
-      let model := match toHeaderMap st with
-        | .error e => "enc-err" :: renderSt e
-        | .ok h => ("wire" :: HMap.render h) ++ ("back" :: renderOutcome (fromHeaderMap .fixed h))
-      let v := match obs with
-        | "wire" :: o =>
-          match HMap.parseRendered o with
-          | some (h, "back" :: "st" :: b) =>
-            match parseObsSt b with
-            | some (o, []) =>
-              let detailsShadowed := st.details.isEmpty && HMap.hasKey Spec.Status.detailsName st.metadata
-              [("values-legal", h.all (fun e => Spec.Status.legalHeaderValue e.2)),
-               ("message-percent-encoded", (HMap.getAll Spec.Status.messageName h).all Spec.Status.percentEncodedWellFormed),
-               ("code-survives", detailsShadowed || o.code == st.code.num),
-               ("message-survives", detailsShadowed || o.message == st.message),
-               ("details-survive", detailsShadowed || o.details == st.details),
-               ("custom-metadata-survives", HMap.render (customOnly o.metadata) == HMap.render (customOnly st.metadata)),
-               ("no-protocol-names-in-metadata", o.metadata.all (fun e => !Spec.Status.protocolNames.contains e.1))]
-            | _ => [("observed-parses", false)]
-          | some (_, ["back", "panic"]) => [("never-panics", false)]
-          | _ => [("reads-back-a-status", false)]
-        | _ => [("status-is-encodable", false)]
-      (join model, verdict v)
     | _ => bad
   | "infer" :: hs :: nf :: rest =>
     match nat? hs, nat? nf with
@@ -196,6 +170,33 @@ def handle (case obs : List String) : String × String :=
           | none => [("observed-parses", false)]
         | _ => [("observed-parses", false)]
       (toString r, verdict v)
+  | kind :: rest =>
+    if kind != "rt" && kind != "rth" then bad else
+    match parseSt rest with
+    | some (st, []) =>
+      let h0 : HMap := if kind == "rth" then [(HMap.name "content-type", HMap.name "application/grpc")] else []
+      let model := match addHeader .fixed st h0 with
+        | .error e => "enc-err" :: renderSt e
+        | .ok h => ("wire" :: HMap.render h) ++ ("back" :: renderOutcome (fromHeaderMap .fixed h))
+      let v := match obs with
+        | "wire" :: o =>
+          match HMap.parseRendered o with
+          | some (h, "back" :: "st" :: b) =>
+            match parseObsSt b with
+            | some (o, []) =>
+              [("values-legal", h.all (fun e => Spec.Status.legalHeaderValue e.2)),
+               ("message-percent-encoded", (HMap.getAll Spec.Status.messageName h).all Spec.Status.percentEncodedWellFormed),
+               ("code-survives", o.code == st.code.num),
+               ("message-survives", o.message == st.message),
+               ("details-survive", o.details == st.details),
+               ("custom-metadata-survives", HMap.render (customOnly o.metadata) == HMap.render (customOnly st.metadata)),
+               ("no-protocol-names-in-metadata", o.metadata.all (fun e => !Spec.Status.protocolNames.contains e.1 || h0.contains e))]
+            | _ => [("observed-parses", false)]
+          | some (_, ["back", "panic"]) => [("never-panics", false)]
+          | _ => [("reads-back-a-status", false)]
+        | _ => [("status-is-encodable", false)]
+      (join model, verdict v)
+    | _ => bad
   | _ => bad
 
 end DriverC04
